@@ -131,7 +131,16 @@ pub fn gen_scenario(r: &mut Rng) -> Option<Scenario> {
         if sum(&b5) == 0.0 {
             b5[0] = 16.0;
         }
-        lines.push(used(5, "ACS", biocr, &b5));
+        if r.chance(1, 3) {
+            // the same consumption declared in two lines (e.g. two boilers of one system): they add up
+            let a: Vec<f32> = b5.iter().map(|x| ((x * 8.0 * 0.375).floor()) / 8.0).collect();
+            let b: Vec<f32> = b5.iter().zip(a.iter()).map(|(x, y)| x - y).collect();
+            lines.push(used(5, "ACS", biocr, &a));
+            lines.push(used(5, "ACS", biocr, &b));
+            mixes.push("biomass_consumption_in_two_lines".into());
+        } else {
+            lines.push(used(5, "ACS", biocr, &b5));
+        }
         mixes.push(format!("{}{}", biocr.to_lowercase(), if bio_out { "_with_output" } else { "_without_output" }));
         if bio_out {
             let o: Vec<f32> = b5.iter().map(|x| x * 0.75).collect();
@@ -462,7 +471,7 @@ pub fn run(ctx: &Ctx) -> Report {
         check_scenario(ctx, &sc, t);
     });
     let mut quotas = vec![("closed_form_comparisons".to_string(), tally.get("closed_form_comparisons"), 3000), ("not_computable.error_reported".to_string(), tally.get("not_computable.error_reported"), 50)];
-    for m in ["direct_electric", "heat_pump", "heat_pump_also_heating", "solar_thermal_plus_boiler", "district_RED1", "district_RED2", "auxiliaries", "auxiliaries_are_the_only_dhw_electricity", "pv_shared_with_other_services", "load_matching", "two_biomass_types", "gas_cogeneration_present"] {
+    for m in ["direct_electric", "heat_pump", "heat_pump_also_heating", "solar_thermal_plus_boiler", "district_RED1", "district_RED2", "auxiliaries", "auxiliaries_are_the_only_dhw_electricity", "pv_shared_with_other_services", "load_matching", "two_biomass_types", "biomass_consumption_in_two_lines", "gas_cogeneration_present"] {
         quotas.push((format!("mix.{m}"), tally.get(&format!("mix.{m}")), 50));
     }
     for i in ["non_epb_consumption", "other_services_non_electric_consumption", "k_exp", "area", "scaling"] {
